@@ -70,6 +70,8 @@ FUNCS = {
             ('in_progress_untouched', 'eqv(self._tx_tmp, old(self._tx_tmp)) and self._tx_pend_ack == old(self._tx_pend_ack) '
                                       'and eqv(self._rx_tmp, old(self._rx_tmp))', ['C09']),
             ('nothing_sent', 'ghost.trace == old(ghost.trace)', ['C04']),
+            # the close check runs after the flush: nothing in flight any more means closed
+            ('closed_once_terminating_and_drained', 'implies(self._in_term and idle_spec(self), closed(self))', ['C09']),
         ],
     ),
     'tcpcl.session:ContactHandler.terminate': dict(
@@ -83,7 +85,7 @@ FUNCS = {
                                     'self._in_term')],
     ),
     'tcpcl.session:ContactHandler.recv_xfer_ack': dict(
-        params={'transfer_id': 'Int', 'flags': 'Int', 'length': 'Int'}, props=['C01', 'C17', 'C18'], handler=True,
+        params={'transfer_id': 'Int', 'flags': 'Int', 'length': 'Int'}, props=['C01', 'C09', 'C17', 'C18'], handler=True,
         requires=[('open', 'not closed(self)', []), ('wire_values', 'flags >= 0 and transfer_id >= 0 and length >= 0 and length <= U64', []),
                   ('no_modulation', 'self._config.modulate_target_ack_time is None', [])],
         raises={'RejectError': dict(
@@ -108,10 +110,12 @@ FUNCS = {
             ('other_transfers_untouched', 'self._tx_pend_start == old(self._tx_pend_start) and '
                                           'eqv(self._tx_tmp, old(self._tx_tmp)) and eqv(self._rx_tmp, old(self._rx_tmp))', ['C17']),
             ('nothing_sent', 'ghost.trace == old(ghost.trace)', ['C04']),
+            # C09: the final acknowledgement may be what a terminating session was waiting for: the close check runs
+            ('closed_once_terminating_and_drained', 'implies(flag(flags, 1) and self._in_term and idle_spec(self), closed(self))', ['C09']),
         ],
     ),
     'tcpcl.session:ContactHandler.recv_xfer_refuse': dict(
-        params={'transfer_id': 'Int', 'reason': 'Int'}, props=['C17', 'C18'], handler=True,
+        params={'transfer_id': 'Int', 'reason': 'Int'}, props=['C09', 'C17', 'C18'], handler=True,
         requires=[('open', 'not closed(self)', []), ('wire_values', 'transfer_id >= 0 and reason >= 0', [])],
         # a refusal names a transfer that was started and is not yet finished; anything else is rejected
         raises={'RejectError': dict(when='not self._in_sess or not contains(self._tx_map, transfer_id) or '
@@ -135,6 +139,8 @@ FUNCS = {
             ('other_transfers_untouched', 'self._tx_pend_start == old(self._tx_pend_start) and '
                                           'eqv(self._rx_tmp, old(self._rx_tmp))', ['C17']),
             ('nothing_sent', 'ghost.trace == old(ghost.trace)', ['C04']),
+            # C09: so may a refusal (of a transfer in progress or of one awaiting its acknowledgement)
+            ('closed_once_terminating_and_drained', 'implies(self._in_term and idle_spec(self), closed(self))', ['C09']),
         ],
     ),
     # ---- D-Bus view ----------------------------------------------------------------------------------
